@@ -146,6 +146,9 @@ def framework_workbook(spec):
         P.append(["mort", "Mortality", "probability", None, None, 0, None, None, "n", "flows", None])
         P.append(["mort_inf", "Disease mortality", "number", None, None, 0, None, None, "y", "flows", None])
     P.append(["tx_frac", "Treated fraction (output)", "proportion", None, None, None, None, "s3/max(alive,1)", "n", None, None])
+    # output parameters whose function depends on time only (no model variable), and one built on it
+    P.append(["disc", "Discount factor (output)", "number", None, None, None, None, "exp(-0.03*(t-2000))", "n", None, None])
+    P.append(["disc_tx", "Discounted treated (output)", "number", None, None, None, None, "disc*s3", "n", None, None])
     # output parameter using the flow syntax ('s2:' = all flows out of s2, which includes transfer links added after the populations are built)
     P.append(["dur_inf", "Average time infected (output)", "years", None, None, None, None, "min(s2/max(s2:,1e-15),50)", "n", None, None])
     ws = wb.create_sheet("Parameters")
